@@ -69,6 +69,9 @@ func (h *UpgradeAwareHandler) ServeHTTP(w http.ResponseWriter, req *http.Request
 	// of the proxy URL
 	if !strings.HasSuffix(loc.Path, "/") && strings.HasSuffix(req.URL.Path, "/") {
 		loc.Path += "/"
+		if loc.RawPath != "" {
+			loc.RawPath += "/"
+		}
 	}
 
 	// From pkg/genericapiserver/endpoints/handlers/proxy.go#ServeHTTP:
